@@ -131,7 +131,9 @@ CLAIMED = {
  "C20": dict(
    text="Proof. Per (register-map layout, phase) a kernel-checked theorem: for ALL input sequences over the phase's alphabet (every valid/ready timing on the write-address, write-data, write-response, read-address and read-data channels, mapped and unmapped addresses, the listed data patterns and byte strobes) "
         "the AXI4-Lite monitor of Models/AxiSpec.v (valid held until ready, exactly one response per transaction, OKAY/DECERR by address, strobed bytes written and others kept, read data = register content) never flags on the parsed VHDL of a wrapper around the REAL std.axi.axi4_light.Axi4Light + reg32 address map. "
-        "Layouts, data patterns and strobes are enumerated; sequences are proved.",
+        "Layouts (one / two memory words, register arrays at the top level and inside a RegFile at a non-zero offset, one- and two-level nested RegFiles, a Register with MemField / MemUField / hardware-driven UField and Field and PushOnNotify.Write/.Read), "
+        "data patterns and strobes are enumerated per phase; sequences are proved.  The monitor also checks write masks (only writable bits change through the bus), that hardware-driven bits follow the hardware model, and that each notification is one pulse in exactly the clock in which the access completes. "
+        "General facts about the reference model are proved for all inputs (C20_strobe_merge_exact, C20_strobe_merge_nothing_else, C20_masked_write_exact, C20_unmapped_write_keeps, C20_write_other_registers_kept, C20_decode_sound, ...).",
    technique="Rocq proof: verified reachability checker on design x AXI-monitor product (mcheck_s_sound) per compiled register map",
    design_ref="DESIGN.md §6 C20"),
 }
